@@ -2,7 +2,7 @@
    theorems of props/C11.v mention (idx_load, idx_write, idx_read, idx_getall, idx_canon,
    ii_load, ii_flatten, ...) are evaluated here unchanged. *)
 From Coq Require Import Strings.String.
-From GoCar Require Import Bytes Varint Cid Header Frame V2Header Scan Val RunScan Index IndexGen.
+From GoCar Require Import Bytes Varint Cid Header Frame V2Header Scan Val RunScan Index IndexGen Options.
 
 (* ---- decoding the case input ------------------------------------------------------------- *)
 Definition v_recs (v : val) : list irec :=
@@ -171,16 +171,22 @@ Definition prop_idxread (input obs : val) : val :=
                   | 4 io.ReaderAt through NewReader(..).DataReader()
                   | 5 bufio.Reader over a plain reader | 6 bytes.Buffer (plain streams with ReadByte)
                   | 7 iotest.DataErrReader | 8 iotest.HalfReader | 9 iotest.OneByteReader (plain)
+                  | 10, 11 ReadOrGenerateIndex | 12 GenerateIndexFromFile(path of the file)
+                  | 13 GenerateIndexFromFile(a path that does not exist)
      opts = (zeroLengthAsEOF maxHeader storeIdentity maxIndexCidSize)
      codec: 0x0400 | 0x0401 | 0x300003 (InsertionIndex handed to LoadIndex)
      expect (for the property predicate only) = (tvalid hlen blocks payload pad) | (tnone)
    observation = (terr class) | (tok listing getalls)
      listing: canonical serialized bytes (on-disk codecs) / ForEachCid order (insertion index)
      getalls: per query, ascending offsets (insertion index: in GetAll order) *)
-Definition codec_insertion : N := 3145731. (* 0x300003 *)
 
+(* the option values as PASSED (MaxIndexCidSize(n), possibly an explicit 0): ApplyOptions resolves a
+   zero MaxIndexCidSize to its default and caps it (Options.v resolve_max_cid); a zero
+   MaxAllowedHeaderSize stays zero *)
 Definition v_gopts (v : val) : gopts :=
-  mkgopts (vbool (vnth 0 v)) (vN (vnth 1 v)) (vbool (vnth 2 v)) (vN (vnth 3 v)).
+  mkgopts (vbool (vnth 0 v)) (vN (vnth 1 v)) (vbool (vnth 2 v)) (resolve_max_cid (vN (vnth 3 v))).
+(* UseIndexCodec(c) as passed: 0 resolves to car-multihash-index-sorted *)
+Definition v_codec (v : val) : N := resolve_codec (vN v).
 
 (* 2 plain io.Reader, 5 bufio.Reader, 6 bytes.Buffer, 7 iotest.DataErrReader (last data arrive with
    io.EOF), 8 iotest.HalfReader, 9 iotest.OneByteReader (short reads): no Seek method, so ToByteReadSeeker puts the
@@ -211,9 +217,10 @@ Definition v_index_obs (codec : N) (recs : list irec) (qs : list bytes) : val :=
     end.
 
 Definition run_idxgen_with (fx : fixes) (input : val) : val :=
-  let codec := vN (vnth 4 input) in
+  let codec := v_codec (vnth 4 input) in
   let qs := map vB (vL (vnth 5 input)) in
-  if 10 <=? vN (vnth 0 input) then
+  if vN (vnth 0 input) =? 13 then VL [VT "err"; v_err EOther]   (* GenerateIndexFromFile on a missing path *)
+  else if (vN (vnth 0 input) =? 10) || (vN (vnth 0 input) =? 11) then
     (* source kinds 10 (bytes.Reader) / 11 (Read+Seek only): ReadOrGenerateIndex; the listing is
        the length of the index's serialized form *)
     match read_or_generate_index (hdr_lookup (vL (vnth 3 input))) codec (v_gopts (vnth 1 input)) (vB (vnth 2 input)) with
@@ -232,6 +239,7 @@ Definition run_idxgen (input : val) : val := run_idxgen_with repaired input.
 Definition class_of_kind (k : N) : string :=
   if k =? 2 then "plain-reader" else if k =? 4 then "reader-at"
   else if (k =? 5) || (k =? 6) then "plain-bytereader"
+  else if 12 <=? k then "from-file"
   else if 10 <=? k then "read-or-generate"
   else if 7 <=? k then "plain-short-or-eof-with-data" else "seekable".
 Definition fail3 (clause cls : string) : val := VL [VT "FAIL"; VT clause; VT cls].
@@ -239,7 +247,7 @@ Definition fail3 (clause cls : string) : val := VL [VT "FAIL"; VT clause; VT cls
 Definition prop_idxgen (input obs : val) : val :=
   let kind := vN (vnth 0 input) in
   let o := v_gopts (vnth 1 input) in
-  let codec := vN (vnth 4 input) in
+  let codec := v_codec (vnth 4 input) in
   let qs := map vB (vL (vnth 5 input)) in
   let expect := vnth 6 input in
   let cls := class_of_kind kind in
@@ -380,18 +388,29 @@ Definition gbig_blocks (d : val) : list block :=
   rev_append (snd (N.iter n (fun st => (fst st + 1, gbig_block code dl (fst st) :: snd st)) (0, []))) [] ++
   rev_append (snd (N.iter ndup (fun st => (fst st + 1, gbig_block code dl ((7 * fst st) mod n) :: snd st)) (0, []))) [].
 
+(* [spec_lookup] with every CID parsed once instead of once per key (equal to it:
+   proofs/IndexGetFirst.v lookup_fast_eq) *)
+Definition gbig_keys (hlen : N) (bs : list block) : list (N * option cidp) :=
+  map (fun ob => (fst ob, cid_parse (fst (snd ob)))) (sections_at hlen bs).
+Definition lookup_fast (o : gopts) (by_code : bool) (code : N) (d : bytes) (keys : list (N * option cidp)) : list N :=
+  map fst (filter (fun k => match snd k with
+                            | Some p => indexed o p && (bytes_eqb (c_digest p) d && (negb by_code || (c_mhcode p =? code)))
+                            | None => false
+                            end) keys).
+
 Definition gbig_expected (input : val) : val :=
   let o := v_gopts (vnth 1 input) in
   let d := vnth 2 input in
   let hlen := vN (vnth 3 input) in
-  let codec := vN (vnth 4 input) in
+  let codec := v_codec (vnth 4 input) in
   let samples := vL (vnth 5 input) in
   let bs := gbig_blocks d in
-  let nidx := N.of_nat (length (filter (fun b => section_indexed o (fst b)) bs)) in
+  let keys := gbig_keys hlen bs in
+  let nidx := N.of_nat (length (filter (fun k => match snd k with Some p => indexed o p | None => false end) keys)) in
   let by_code := codec =? codec_mh_sorted in
   VL [VT "ok"; VN nidx; VN nidx;
       VL (map (fun s => let k := v_key (fst (gbig_block (vN (vnth 0 d)) (vN (vnth 1 d)) (vN s))) in
-                        v_offs (sort_N (spec_lookup o by_code (fst k) (snd k) hlen bs))) samples)].
+                        v_offs (sort_N (lookup_fast o by_code (fst k) (snd k) keys))) samples)].
 
 Definition run_idxgenbig (input : val) : val := gbig_expected input.
 
@@ -476,3 +495,59 @@ Definition run_idxload2 (input : val) : val :=
       VL [VB (canon_bytes i); v_getalls_sorted i qs]
   end.
 Definition prop_idxload2 (input obs : val) : val := VT "ok".
+
+(* ---- kind idxfirst: index.GetFirst on the three index kinds, InsertionIndex.Get -----------------------
+   input = (codec, records, queries); codec 0x300003 = the insertion index
+   observation = per query (getfirst get), each (tnotfound) | (tok off) | (tamong) | (tBAD):
+     the sorted codecs leave the order inside equal digests to sort.Sort and llrb.Get picks by tree
+     shape, so when GetAll reports several offsets the answer is projected to "one of them"
+     (tamong; tBAD if it is not); InsertionIndex.GetFirst is exact (insertion order).
+     get is () for the on-disk codecs. *)
+Definition v_first (exact : bool) (all : list N) (r : res N) : val :=
+  match r with
+  | Err ENotFound => VL [VT "notfound"]
+  | Err _ => VL [VT "BAD"]
+  | Ok o =>
+      if negb (existsb (N.eqb o) all) then VL [VT "BAD"]
+      else if exact || (length all =? 1)%nat then VL [VT "ok"; VN o]
+      else VL [VT "among"]
+  end.
+
+Definition run_idxfirst (input : val) : val :=
+  let codec := vN (vnth 0 input) in
+  let rs := v_recs (vnth 1 input) in
+  let qs := map vB (vL (vnth 2 input)) in
+  if codec =? codec_insertion then
+    let ii := ii_load rs [] in
+    VL (map (fun q => let d := snd (v_key q) in
+                      VL [v_first true (ii_getall d ii) (ii_getfirst d ii);
+                          v_first false (ii_getall d ii) (ii_get d ii)]) qs)
+  else
+    match idx_new codec with
+    | None => VL [VT "badcodec"]
+    | Some i0 =>
+        let i := idx_load rs i0 in
+        VL (map (fun q => let k := v_key q in
+                          VL [v_first false (idx_getall i (fst k) (snd k)) (idx_getfirst i (fst k) (snd k));
+                              VL []]) qs)
+    end.
+
+(* layer B on the implementation's answers: an offset of a record carrying the key, not-found exactly
+   when there is none *)
+Definition first_ok (spec : list N) (v : val) : bool :=
+  if is_tag (vnth 0 v) "notfound" then (length spec =? 0)%nat
+  else if is_tag (vnth 0 v) "ok" then existsb (N.eqb (vN (vnth 1 v))) spec
+  else if is_tag (vnth 0 v) "among" then (1 <? length spec)%nat
+  else match v with VL [] => true | _ => false end.
+
+Definition prop_idxfirst (input obs : val) : val :=
+  let codec := vN (vnth 0 input) in
+  let rs := v_recs (vnth 1 input) in
+  let qs := map vB (vL (vnth 2 input)) in
+  let spec q := let k := v_key q in
+                if codec =? codec_mh_sorted then spec_offsets_mh rs (fst k) (snd k)
+                else spec_offsets_digest rs (snd k) in
+  if forallb (fun qo => first_ok (spec (fst qo)) (vnth 0 (snd qo)) && first_ok (spec (fst qo)) (vnth 1 (snd qo)))
+             (combine qs (vL obs))
+     && (length qs =? length (vL obs))%nat
+  then VT "ok" else fail "first-offset-is-not-a-record-carrying-the-key".
